@@ -734,7 +734,7 @@ class Interp:
                     self.bind_target(st, e, v)
                 return
             for i, e in enumerate(tgt.elts):
-                self.bind_target(st, e, ("item", value, const(i)))
+                self.bind_target(st, e, self.get_item(st, value, const(i)))
         elif isinstance(tgt, ast.Starred):
             self.bind_target(st, tgt.value, value)
         # attribute / subscript targets are handled by assign()
@@ -1191,7 +1191,7 @@ class Interp:
                     self.assign(st, e, x, tree, line)
             else:
                 for i, e in enumerate(tgt.elts):
-                    self.assign(st, e, ("item", v, const(i)), tree, line)
+                    self.assign(st, e, self.get_item(st, v, const(i)), tree, line)
         elif isinstance(tgt, ast.Starred):
             self.assign(st, tgt.value, v, tree, line)
 
